@@ -1,7 +1,10 @@
 package chainsim
 
 import (
+	"encoding/json"
 	"math/big"
+
+	"github.com/meshplus/bitxhub-core/governance"
 
 	"github.com/meshplus/bitxhub-model/pb"
 )
@@ -9,12 +12,24 @@ import (
 // applyExtra handles governance / direct-call / mutation steps (filled in by later files).
 func (s *scn) applyExtra(st CStep) {
 	switch st.Op {
+	case "call":
+		s.applyCall(st)
 	default:
 		applyGov(s, st)
 	}
 }
 
 func (s *scn) afterBlockExtra(h uint64, txs []*pb.BxhTransaction, metas []*txMeta, ref *blockResult) {
+	// remember proposal ids returned by any governance operation (argument pool, vote targets)
+	for _, rc := range ref.Receipts {
+		if rc.Status == pb.Receipt_SUCCESS && len(rc.Ret) > 15 && rc.Ret[0] == '{' {
+			g := &governance.GovernanceResult{}
+			if json.Unmarshal(rc.Ret, g) == nil && g.ProposalID != "" {
+				s.proposals = append(s.proposals, g.ProposalID)
+			}
+		}
+	}
+	s.afterBlockCalls(h, txs, metas, ref)
 	afterBlockGov(s, h, txs, metas, ref)
 }
 
